@@ -62,12 +62,81 @@ def run(chk) -> None:
     _r31a(chk, repo, sk)
     _r31b(chk, repo, sk)
     _r31c(chk, repo)
+    chk.rule("R31d", "a serialised create fix collapses its location onto one end of the anchor in all coordinates together: LintFix.to_dict copies line_no, line_pos and file_pos (every start_/end_ key source_position_dict_from_slice produces) from the kept end, for create_before and for create_after")
+    _r31d(chk, repo)
     deferred = chk.extra.pop("_r31a_deferred", [])
     if deferred and not any(f.rule == "R31c" for f in chk.findings):
         raise AnalysisError(deferred[0])
     chk.note(
         "Not decided: the integer arithmetic of the conversion (bisect_left vs bisect_right, the +1 offsets, the index nl_idx-1, the column after a newline in infer_next_position)."
     )
+
+
+def _r31d(chk, repo) -> None:
+    from ..idioms import conditions_at
+
+    FIXF = "src/sqlfluff/core/rules/fix.py"
+    td = repo.fn(FIXF, "LintFix.to_dict")
+    maker = repo.fn(TBASE, "TemplatedFile.source_position_dict_from_slice")
+    keys = set()
+    for r in walk_local(maker):
+        if isinstance(r, ast.Return) and isinstance(r.value, ast.Dict):
+            keys |= {k.value for k in r.value.keys if isinstance(k, ast.Constant) and isinstance(k.value, str)}
+    sufs = {k.split("_", 1)[1] for k in keys if k.startswith("start_")}
+    if not sufs or sufs != {k.split("_", 1)[1] for k in keys if k.startswith("end_")}:
+        raise AnalysisError("R31d: source_position_dict_from_slice no longer returns a literal dict of start_* / end_* keys (anchor refactored)")
+    cfg = cfg_of(td)
+    # stores into the location dict, grouped by which create type they run under
+    cover: Dict[str, Set[str]] = {"create_before": set(), "create_after": set()}
+    wrong: List[Tuple[ast.AST, str]] = []
+    n = 0
+    for st in walk_local(td):
+        if not (isinstance(st, ast.Assign) and len(st.targets) == 1 and isinstance(st.targets[0], ast.Subscript)):
+            continue
+        t = st.targets[0]
+        conds = conditions_at(cfg, st)
+        under = set()
+        for e, pol in conds:
+            if pol and isinstance(e, ast.Compare) and len(e.ops) == 1 and norm(e.left).endswith("edit_type"):
+                c0 = e.comparators[0]
+                if isinstance(e.ops[0], ast.Eq) and isinstance(c0, ast.Constant):
+                    under.add(c0.value)
+                elif isinstance(e.ops[0], ast.In) and isinstance(c0, (ast.Tuple, ast.List, ast.Set)):
+                    under |= {x.value for x in c0.elts if isinstance(x, ast.Constant)}
+        under &= set(cover)
+        if not under:
+            continue
+        n += 1
+        k = t.slice
+        got: Set[str] = set()
+        if isinstance(k, ast.Constant) and isinstance(k.value, str) and "_" in k.value:
+            pre, suf = k.value.split("_", 1)
+            got = {suf}
+            v = st.value
+            vk = v.slice.value if isinstance(v, ast.Subscript) and isinstance(v.slice, ast.Constant) and isinstance(v.slice.value, str) else None
+            want_pre = {"create_before": ("end", "start"), "create_after": ("start", "end")}
+            for u in under:
+                d, s_ = want_pre[u]
+                if pre != d or vk != f"{s_}_{suf}":
+                    wrong.append((st, f"under {u}: `{short(st, 70)}` is not {d}_{suf} = {s_}_{suf}"))
+        elif isinstance(k, ast.JoinedStr) and k.values and isinstance(k.values[-1], ast.FormattedValue) and isinstance(k.values[-1].value, ast.Name):
+            for o in origins(cfg, k.values[-1].value, st):
+                if o.kind == "for" and isinstance(o.stmt.iter, (ast.Tuple, ast.List)):
+                    got |= {x.value for x in o.stmt.iter.elts if isinstance(x, ast.Constant) and isinstance(x.value, str)}
+        for u in under:
+            cover[u] |= got
+    chk.count("R31d.collapse_stores", n)
+    chk.floor("R31d.collapse_stores", 1)
+    for u, got in sorted(cover.items()):
+        missing = sorted(sufs - got)
+        chk.require(
+            not missing, "R31d", td,
+            f"LintFix.to_dict collapses a {u} fix onto one end of its anchor in {sorted(got & sufs)} but not in {missing}: when the anchor spans a newline the serialised fix carries a line number "
+            "from one end and a column / file position from the other -- a (line, column) that is not the position of that file offset",
+            detail=f"LintFix.to_dict: {u} collapses every coordinate",
+        )
+    for st, why in wrong:
+        chk.fail("R31d", st, f"LintFix.to_dict: {why}: the collapsed end takes a coordinate that is not the same coordinate of the kept end", detail=f"LintFix.to_dict: collapse copies like to like ({short(st.targets[0], 40)})")
 
 
 # ---------------------------------------------------------------------------
@@ -618,6 +687,18 @@ from ..selftest import Variant  # noqa: E402
 LINTER = "src/sqlfluff/core/linter/linter.py"
 
 VARIANTS = [
+    Variant(
+        "create-after-fix-keeps-the-start-line", "src/sqlfluff/core/rules/fix.py",
+        '            _src_loc["start_line_no"] = _src_loc["end_line_no"]\n',
+        "",
+        "R31d", "LintFix.to_dict", "seeded C31-7 family: the line of one end with the column of the other",
+    ),
+    Variant(
+        "create-before-fix-takes-the-column-as-line", "src/sqlfluff/core/rules/fix.py",
+        '            _src_loc["end_line_no"] = _src_loc["start_line_no"]\n',
+        '            _src_loc["end_line_no"] = _src_loc["start_line_pos"]\n',
+        "R31d", "LintFix.to_dict", "like copied from unlike",
+    ),
     Variant(
         "newline-finder-rewritten-with-splitlines", TBASE,
         '    init_idx = -1\n    while True:\n        nl_pos = raw_str.find("\\n", init_idx + 1)\n        if nl_pos >= 0:\n            yield nl_pos\n            init_idx = nl_pos\n        else:\n            break  # pragma: no cover TODO?\n',
